@@ -8577,3 +8577,121 @@ func ruleStringParsedWideEnough(c *core.Ctx) {
 		c.Undecided(rule, "anchor/std::sto*", d.Pos(), "no std::sto* row chosen by a set of primitives found in writeTypeConversion")
 	}
 }
+
+// TA1 (C10): no unchecked type assertion on what the user wrote. A single-value assertion `x.(T)` panics when x holds
+// another type. In the front end (YAML unmarshalling, expression parsing, validation, evolution, packaging) every
+// such assertion is either established — inside the clause of a type switch / behind a comma-ok assertion of the same
+// expression to the same type, or applied to the result of a function that returns that type by construction
+// (ToGeneralizedType, DefaultRewrite of a node of that type, Rewrite of the environment) — or listed in auditedAssertions
+// with the invariant that justifies it.
+var auditedAssertions = map[string]string{}
+
+func ruleNoUncheckedAssertionsInFrontEnd(c *core.Ctx) {
+	const rule = "TA1"
+	c.Rule(rule, "parsers (pkg/dsl yaml.go and expressionparser.go, pkg/packaging, internal/cmd): every single-value type assertion is established by an enclosing type-switch clause / earlier comma-ok assertion, applies to a call known to return that type, or is audited", 1)
+	scanned, commaOk := 0, 0
+	defer func() {
+		// the rule is about the absence of unchecked assertions: the parsers are full of checked ones
+		if scanned >= 40 && commaOk >= 10 {
+			c.OK(rule, "anchor/parsers scanned", 0, fmt.Sprintf("%d functions scanned, %d comma-ok assertions seen", scanned, commaOk))
+		} else {
+			c.Undecided(rule, "anchor/parsers scanned", 0, fmt.Sprintf("only %d functions / %d comma-ok assertions found in the parsers", scanned, commaOk))
+		}
+	}()
+	for _, d := range c.AllDecls() {
+		p := c.DeclPkg(d)
+		if p == nil || d.Body == nil || c.IsTestFile(d.Pos()) {
+			continue
+		}
+		if !(strings.HasSuffix(p.PkgPath, "/pkg/dsl") || strings.HasSuffix(p.PkgPath, "/pkg/packaging") || strings.HasSuffix(p.PkgPath, "/internal/cmd")) {
+			continue
+		}
+		// the parsers proper: what they assert about is what the user wrote. (The rewriter and the evolution analyser
+		// assert about nodes they built or classified themselves; those invariants are internal and not claimed here.)
+		if fn := c.Fset.Position(d.Pos()).Filename; strings.HasSuffix(p.PkgPath, "/pkg/dsl") && !(strings.HasSuffix(fn, "/yaml.go") || strings.HasSuffix(fn, "/expressionparser.go") || strings.HasSuffix(fn, "/expressions.go")) {
+			continue
+		}
+		_ = p.TypesInfo
+		parents := map[ast.Node]ast.Node{}
+		var stack []ast.Node
+		ast.Inspect(d.Body, func(x ast.Node) bool {
+			if x == nil {
+				stack = stack[:len(stack)-1]
+				return true
+			}
+			if len(stack) > 0 {
+				parents[x] = stack[len(stack)-1]
+			}
+			stack = append(stack, x)
+			return true
+		})
+		n := 0
+		scanned++
+		ast.Inspect(d.Body, func(nn ast.Node) bool {
+			ta, ok := nn.(*ast.TypeAssertExpr)
+			if !ok || ta.Type == nil {
+				return true
+			}
+			// comma-ok form?
+			if as, ok := parents[ta].(*ast.AssignStmt); ok && len(as.Lhs) == 2 && len(as.Rhs) == 1 {
+				commaOk++
+				return true
+			}
+			if vs, ok := parents[ta].(*ast.ValueSpec); ok && len(vs.Names) == 2 {
+				return true
+			}
+			n++
+			want := types.ExprString(ta.Type)
+			subj := types.ExprString(ta.X)
+			key := fmt.Sprintf("%s/%s.(%s)", c.FuncName(d), subj, want)
+			// (a) result of a call: rewriters return what they were given, ToGeneralizedType returns *GeneralizedType
+			if ce, ok := ast.Unparen(ta.X).(*ast.CallExpr); ok {
+				fn := types.ExprString(ce.Fun)
+				if strings.HasSuffix(fn, "DefaultRewrite") || strings.HasSuffix(fn, "Rewrite") || strings.HasSuffix(fn, "RewriteWithContext") || strings.HasSuffix(fn, "ToGeneralizedType") || strings.HasSuffix(fn, "Clone") || strings.HasSuffix(fn, "shallowClone") {
+					c.OK(rule, key, ta.Pos(), "result of "+fn+", which returns a node of the kind it was given")
+					return true
+				}
+			}
+			// (b) established by an enclosing type switch clause on the same subject, or an earlier successful comma-ok
+			established := false
+			for cur := ast.Node(ta); cur != nil && !established; cur = parents[cur] {
+				switch pp := parents[cur].(type) {
+				case *ast.CaseClause:
+					if ts, ok := parents[parents[pp]].(*ast.TypeSwitchStmt); ok {
+						var tsSubj ast.Expr
+						switch a := ts.Assign.(type) {
+						case *ast.AssignStmt:
+							tsSubj = a.Rhs[0].(*ast.TypeAssertExpr).X
+						case *ast.ExprStmt:
+							tsSubj = a.X.(*ast.TypeAssertExpr).X
+						}
+						if tsSubj != nil && types.ExprString(tsSubj) == subj && len(pp.List) == 1 && types.ExprString(pp.List[0]) == want {
+							established = true
+						}
+					}
+				case *ast.IfStmt:
+					if cur == ast.Node(pp.Body) {
+						ast.Inspect(pp.Cond, func(m ast.Node) bool {
+							return true
+						})
+						if as, ok := pp.Init.(*ast.AssignStmt); ok && len(as.Lhs) == 2 && len(as.Rhs) == 1 {
+							if t2, ok := ast.Unparen(as.Rhs[0]).(*ast.TypeAssertExpr); ok && t2.Type != nil && types.ExprString(t2.X) == subj && types.ExprString(t2.Type) == want {
+								established = true
+							}
+						}
+					}
+				}
+			}
+			if established {
+				c.OK(rule, key, ta.Pos(), "established by an enclosing type test of the same expression")
+				return true
+			}
+			if r, ok := auditedAssertions[key]; ok {
+				c.OK(rule, key, ta.Pos(), "audited: "+r)
+				return true
+			}
+			c.Bad(rule, key, ta.Pos(), fmt.Sprintf("`%s.(%s)` is not established by a type test and is not audited: an input that puts another kind of node there makes yardl panic instead of reporting an error", subj, want))
+			return true
+		})
+	}
+}
